@@ -20,8 +20,9 @@ class C04(Property):
     exact_text = True
     quick_n = 3000
     thorough_n = 150000
-    partial = ["C04_nopanic is proved for the ledger operations under well-formedness; purity is not a theorem (Gallina functions "
-               "are pure by construction) and is tied by re-running the same OptionParser"]
+    partial = ["totality is proved for the definitions `oko` accepts (adjacent groups with `any`/subcommand/nested-group members "
+               "are outside: their fuel/panic outcomes are explicit and compared); error rendering returns for EVERY definition; "
+               "purity is not a theorem (Gallina functions are pure by construction) and is tied by re-running the same OptionParser"]
 
     def gen_def(self, rng):
         r = rng.random()
